@@ -24,7 +24,7 @@ ASSUMPTIONS = [
     "physical 'waiting' vs 'delayed' is only distinguished for due times more than 10 ms ahead (early delivery is C05's)",
     "no time-to-live on messages here (expiry is C12's)",
 ]
-REQUIRED = ["ops", "snapshots_compared", "consume_returns", "cancel_points", "drain_audits", "jumps_to_exact_due_time"]
+REQUIRED = ["ops", "snapshots_compared", "consume_returns", "cancel_points", "drain_audits", "jumps_to_exact_due_time", "concurrent_pairs"]
 SHARD_TIMEOUT = {"quick": 900, "thorough": 3600}
 CASE_TIMEOUT = 120
 
@@ -50,6 +50,12 @@ def gen_cases(tier, seed):
                     if kind == "mem" and lat is not None:
                         continue
                     cases.append({"type": "cancel", "kind": kind, "op": op, "pre": pre, "latency": lat, "seed": seed})
+    # two clients at once: consumer A shuts down while the holder of one of its messages settles it and consumer B takes it
+    for kind in KINDS:
+        for settle_op in ("reject", "requeue"):
+            for victim in ((3, 1) if tier == "quick" else (3, 2, 1, 0)):
+                cases.append({"type": "concurrent", "kind": kind, "op": settle_op, "victim": victim, "offsets": 16 if tier == "quick" else 32, "seed": seed,
+                              "latency": None if kind == "mem" else 0.002})
     return cases
 
 
@@ -734,11 +740,122 @@ async def cancel_scenario(loop, case, k, out, stats, info):
 
 
 
+async def concurrent_scenario(loop, case, off, first, out, stats):
+    """A holds a0..a3 (handed out by A.consume()). Task 1: A.finish(). Task 2: the holder settles the victim through the
+    broker (reject, or requeue with a new payload), consumer B consumes once and acknowledges what it got. The two tasks
+    start `off` scheduling quanta apart (`first` starts first). Afterwards every message is in exactly one place: what B
+    acknowledged is gone, everything else is deliverable exactly once, nothing is held."""
+    from repid.message import MessageCategory
+    from rv.rigs import Rig, key_of
+
+    kind = case["kind"]
+    rig = Rig(kind, loop, latency=case["latency"], seed=case["seed"], record=False)
+    try:
+        ca = rig.make_connection("p1")
+        await ca.connect()
+        cb = ca if kind == "mem" else rig.make_connection("p2")
+        if cb is not ca:
+            await cb.connect()
+        mb = ca.message_broker
+        await mb.queue_declare("q")
+        P = mb.PARAMETERS_CLASS
+        ids = [f"a{i}" for i in range(4)]
+        for id_ in ids:
+            await mb.enqueue(key_of(ca, id_, "t", "q", 5), f"p-{id_}", P())
+        A = mb.get_consumer("q", None, None, MessageCategory.NORMAL)
+        await A.start()
+        keys = {}
+        for _ in ids:
+            k, _pl, _pr = await asyncio.wait_for(A.consume(), 5.0)
+            keys[k.id_] = k
+        B = cb.message_broker.get_consumer("q", None, None, MessageCategory.NORMAL)
+        await B.start()
+        await settle(loop, rig)
+        victim = f"a{case['victim']}"
+        quantum = 0.0 if kind == "mem" else 0.0005
+        got = {}
+
+        async def delay(n):
+            for _ in range(n):
+                await asyncio.sleep(quantum)
+
+        async def t_finish():
+            await delay(off if first == "settle" else 0)
+            await A.finish()
+
+        async def t_settle():
+            await delay(off if first == "finish" else 0)
+            if case["op"] == "reject":
+                await mb.reject(keys[victim])
+            else:
+                await mb.requeue(keys[victim], "p-new", P())
+            try:
+                k, pl, _pr = await asyncio.wait_for(B.consume(), 3.0)
+            except asyncio.TimeoutError:
+                return
+            got["id"], got["payload"] = k.id_, pl
+            got["held_snapshot"] = rig.snapshot().get(k.id_)
+            await cb.message_broker.ack(k)
+
+        await asyncio.gather(t_finish(), t_settle())
+        await settle(loop, rig)
+        stats["concurrent_pairs"] += 1
+        ctx = f"finish||{case['op']}+consume+ack"
+        # while B held it, it was nowhere else
+        if got and got["held_snapshot"] not in (["held"], None):
+            out.append(V("duplicated", kind, ctx + "/held-and-waiting", f"offset {off} ({first} first): B was handed {got['id']} while it was at {got['held_snapshot']}"))
+        if got.get("id") == victim and case["op"] == "requeue" and got["payload"] != "p-new":
+            out.append(V("requeue_not_effective", kind, ctx, f"offset {off}: B received the requeued {victim} with payload {got['payload']!r}"))
+        # the client hands back what the broker still marks as held by the finished consumer (redis / rabbit leave that to it)
+        snap = rig.snapshot()
+        for id_ in ids:
+            if snap.get(id_) == ["held"] and id_ != got.get("id"):
+                await mb.reject(keys[id_])
+        await B.finish()
+        await settle(loop, rig)
+        drained = await rig.drain(ca, "q")
+        seen = collections.Counter(d[1] for d in drained)
+        want = collections.Counter(i for i in ids if i != got.get("id"))
+        stats["drain_audits"] += 1
+        if seen != want:
+            extra = sorted((seen - want).elements())
+            missing = sorted((want - seen).elements())
+            rule = "duplicated" if extra else "lost"
+            why = "acked-message-delivered-again" if got.get("id") in extra else ("other" if extra else "missing")
+            out.append(V(rule, kind, f"{ctx}/{why}", f"offset {off} ({first} first), victim {victim}: B acknowledged {got.get('id')}; the queue then offered {dict(seen)} (expected {dict(want)}): extra {extra}, missing {missing}"))
+        left = {i: pl for i, pl in rig.snapshot().items() if pl}
+        if left:
+            out.append(V("stuck", kind, ctx, f"offset {off}: after the drain {left}"))
+        stats["unknown_server_commands"] += rig.unknown_commands()
+        if cb is not ca:
+            await cb.disconnect()
+        await ca.disconnect()
+    finally:
+        rig.close()
+
+
 def run_case(case):
     from rv.sim import loop as vl
 
     stats = collections.Counter()
     out: list = []
+    if case["type"] == "concurrent":
+        fps = []
+        for off in range(case["offsets"]):
+            for first in ("finish", "settle"):
+                if off == 0 and first == "settle":
+                    continue
+                out_k: list = []
+                res = vl.run(lambda loop, off=off, first=first: concurrent_scenario(loop, case, off, first, out_k, stats), max_steps=2_000_000, seed=case["seed"])
+                if res.exc is not None:
+                    out_k.append(V("harness_or_api_error", case["kind"], "concurrent", f"offset {off}/{first}: {type(res.exc).__name__}: {res.exc}"))
+                fps.append(f"concurrent/{case['kind']}/{case['op']}/{case['victim']}/{off}/{first}")
+                for v in out_k:
+                    if not any(o["rule"] == v["rule"] and o["context"] == v["context"] for o in out):
+                        out.append(v)
+        if stats.get("unknown_server_commands"):
+            return {"fp": None, "viol": [], "stats": dict(stats), "inconclusive": "fake server saw unknown commands"}
+        return {"fp": None, "fps": fps, "viol": out[:6], "stats": dict(stats)}
     if case["type"] == "history":
         trace: list = []
         res = vl.run(lambda loop: run_history(loop, case, out, stats, trace), max_steps=3_000_000, seed=case["seed"])
